@@ -90,6 +90,17 @@ class Obj(object):
     def _build_ll_pk_fixed(self, tag):
         self._build_ll_pk(tag, fixed=True)
 
+    def _build_ll_pk_swap(self, tag):
+        """dosed likelihood with a fixed parameter; step 'f' swaps which
+        parameter is fixed (the solver is rebuilt while sensitivities may
+        still be on from the last gradient evaluation: the regimen must
+        stay attached)"""
+        self._build_ll_pk(tag, fixed=True)
+        ll, B = self.obj, self.B
+        self.reconfigure = lambda: ll.fix_parameters(
+            {'central.size': None,
+             'global.elimination_rate': B.var('kfix')})
+
     def _build_post_pk(self, tag):
         self._build_ll_pk(tag)
         ll = self.obj
@@ -442,6 +453,9 @@ def jobs(tier):
                 [[0, o, 'xy'[k % 2]] for k, o in enumerate(b)]
             out.append(('seq', 'case_seq', dict(kind='ll_sym_fix', seq=seq),
                         {'diffcheck': False}))
+            if len(a) + len(b) <= 3:
+                out.append(('seq', 'case_seq', dict(kind='ll_pk_swap',
+                                                    seq=seq), FACADE))
     for kind in ('ll_pk', 'post_pk', 'll_pk_fixed'):
         for mut in ('rename', 'regimen', 'outputs', 'sens', 'administration'):
             out.append(('user_mutation', 'case_user_mutation',
